@@ -463,7 +463,7 @@ def rewrite_casts(src, lo, hi, edits, stats):
             stats["R19"] = stats.get("R19", 0) + 1
 
 
-def rewrite_for_loops(src, lo, hi, edits, stats):
+def rewrite_for_loops(src, lo, hi, edits, stats, incl_as_iter=False):
     """R4: `for PAT in EXPR { BODY }` over a non-range iterator =>
            `{ let mut __itK = EXPR; loop <spec> { match __itK.next() { Some(PAT) => { BODY } None => break, } } }`
        (the language definition of `for`).  Must be called AFTER the loop specs have been spliced so that they end up
@@ -501,6 +501,11 @@ def rewrite_for_loops(src, lo, hi, edits, stats):
                 d -= 1
             elif x.text == "." and d == 0 and toks[j + 1].text == "." and toks[j + 1].start == x.end:
                 is_range = True
+                # `a..=b`: Verus' for-loop support covers half-open ranges; an inclusive range is treated as the iterator it is
+                # (R4 applies; the template instantiates it with a stand-in, R8) when the directive asks for it
+                if incl_as_iter and toks[j + 2].text == "=" and toks[j + 2].start == toks[j + 1].end:
+                    is_range = False
+                    break
         if is_range:
             continue
         pat = src.text[toks[kw + 1].start:toks[pos_in - 1].end]
@@ -729,7 +734,7 @@ def gen_fn(repo, d, body, report):
             edits.add(toks[a].start, toks[b].end, sub["args"][1], o.get("rule", "REWRITE"),
                       f"`{sub['args'][0]}` => `{sub['args'][1]}`")
             stats[o.get("rule", "REWRITE")] = stats.get(o.get("rule", "REWRITE"), 0) + 1
-    rewrite_for_loops(src, f["body_open"] + 1, f["body_close"], edits, stats)
+    rewrite_for_loops(src, f["body_open"] + 1, f["body_close"], edits, stats, d.get("incl_ranges") == "1")
     for sub in subs:
         if sub["kind"] == "after_loop":
             # ghost text directly after loop k as a whole (structural anchor; added after R4 so that it follows the closers R4 appends)
